@@ -228,7 +228,7 @@ def split_obs(o):
 def parse_events(ev):
     """flat event codes -> list of tuples"""
     out = []; i = 0
-    ar = {1: 1, 2: 1, 3: 2, 4: 1, 5: 2, 6: 0, 7: 5, 8: 0, 9: 1, 10: 0, 11: 1}
+    ar = {1: 1, 2: 1, 3: 2, 4: 1, 5: 2, 6: 0, 7: 5, 8: 0, 9: 1, 10: 0, 11: 1, 13: 0}
     while i < len(ev):
         c = ev[i]
         n = ar.get(c)
